@@ -94,10 +94,13 @@ def listeners_of(obj):
 
 
 class Cell:
-    __slots__ = ("owner", "tmpl", "reads", "get", "name")
+    __slots__ = ("owner", "tmpl", "reads", "get", "name", "orders")
 
-    def __init__(self, owner, tmpl, reads, get, name):
+    def __init__(self, owner, tmpl, reads, get, name, orders=None):
         self.owner, self.tmpl, self.reads, self.get, self.name = owner, tmpl, reads, get, name
+        # a quantity served by SEVERAL public getters sharing one flag: every read order of them, each a callable
+        # returning the values in the canonical order of `get`
+        self.orders = orders or {}
 
 
 class Graph:
@@ -190,10 +193,10 @@ class Graph:
             return {"UnRootedTreeModel": 0, "TimeTreeModel": 1, "FlexibleTimeTreeModel": 1,
                     "ReparameterizedTimeTreeModel": 1}[type(o).__name__]
 
-        def add(j, tmpl, reads, get, name):
+        def add(j, tmpl, reads, get, name, orders=None):
             self.cell_index[(j, tmpl)] = len(self.cells)
             self.cells.append(Cell(j, tmpl, [(self.cell_index[(self.idx[id(ob)], t)], clr) for ob, t, clr in reads],
-                                   get, name))
+                                   get, name, orders))
 
         for j, o in enumerate(self.nodes):
             n = self.cls[j]
@@ -240,8 +243,24 @@ class Graph:
                 add(j, 1, [(o, 0, 1)], lambda x: (x.branch_lengths(),), "branch_lengths")
                 add(j, 2, [(o, 0, 0), (o._internal_heights, 0, 1)], lambda x: (x(),), "__call__")
             elif n in ("ConstantSiteModel", "InvariantSiteModel", "WeibullSiteModel"):
+                def _pr(x):
+                    pr = x.probabilities()
+                    return (x.rates(), pr)
+
+                def _ppr(x):
+                    x.probabilities()
+                    pr = x.probabilities()
+                    return (x.rates(), pr)
+
+                def _p_only_then_r(x):  # (probabilities alone answers first; rates is read last)
+                    pr = x.probabilities()
+                    pr = pr.clone()
+                    return (x.rates(), pr)
+
                 add(j, 0, [(p, 0, 1) for p, _ in held(o)],
-                    lambda x: (x.rates(), x.probabilities()), "rates")
+                    lambda x: (x.rates(), x.probabilities()), "rates",
+                    orders={"probabilities": lambda x: (x.probabilities(),), "probabilities->rates": _pr,
+                            "probabilities,probabilities->rates": _ppr, "rates,rates": lambda x: (x.rates(), x.rates())[1:] + (x.probabilities(),)})
             elif n == "JC69":
                 add(j, 0, [], lambda x: (x.q(), x.frequencies), "q")
             elif n in ("ExponentialCoalescentModel",):
@@ -386,12 +405,30 @@ class Graph:
         # (snapshot / restore of every object's attribute dictionary rather than copy.deepcopy: tensors that
         # carry an autograd graph cannot be deep-copied; getters only rebind attributes)
         snap = [dict(vars(o)) for o in self.nodes]
-        try:
-            got = self.eval_all()
-        finally:
+
+        def restore():
             for o, d in zip(self.nodes, snap):
                 vars(o).clear()
                 vars(o).update(d)
+
+        try:
+            got = self.eval_all()
+        finally:
+            restore()
+        # READ ORDER: a quantity served by several getters sharing one flag is also read in every other order
+        # (probabilities before rates, one of them twice …), each from the same state
+        alt = {}
+        for c, ce in enumerate(self.cells):
+            for oname, fn in ce.orders.items():
+                if oname == "probabilities":
+                    continue  # (a single getter: exercised as an operation of the histories)
+                try:
+                    vals = fn(self.nodes[ce.owner])
+                    alt[(c, oname)] = tuple(t.detach().clone() for t in vals) + tuple("grad" if t.requires_grad else "nograd" for t in vals)
+                except Exception as e:  # noqa: BLE001
+                    alt[(c, oname)] = ("EXC", type(e).__name__)
+                finally:
+                    restore()
         # (the values of a fresh rebuild depend on the leaf values only: memoised per leaf state)
         key = (self.small, tuple(self.leaf_key(c) for c in self.leaf_cells))
         want = _FRESH.get(key)
@@ -404,7 +441,13 @@ class Graph:
             if len(_FRESH) > 400:
                 _FRESH.clear()
             _FRESH[key] = want
-        return [c for c in range(len(self.cells)) if not same(got[c], want[c])], got, want
+        stale = [c for c in range(len(self.cells)) if not same(got[c], want[c])]
+        for (c, oname), vals in alt.items():
+            if c not in stale and not same(vals, want[c]):
+                stale.append(c)
+                got[c] = vals
+                self.order_note = (c, oname)
+        return sorted(stale), got, want
 
     def leaf_values_full(self):
         vals = {k: list(v) for k, v in self.values0.items()}
@@ -613,7 +656,7 @@ class Runner:
                 o = g.dic[op["node"]]
                 c = g.cell_index[(g.idx[id(o)], op["cell"])]
                 try:
-                    g.cells[c].get(o)
+                    (g.cells[c].orders[op["getter"]] if op.get("getter") else g.cells[c].get)(o)
                 except Exception as e:  # noqa: BLE001
                     raised, exc = True, exc_info(e)
                 self.ops_txt.append(f"E{c}")
@@ -1196,6 +1239,27 @@ def run(ck: Check):
             else:
                 u = {"op": "grad", "target": lid, "value": True}
             handle([{"op": "evalall"}, u], "update-modes/tree-parameters")
+    # READ ORDER on objects whose getters share one flag (site models): after an update read ONLY probabilities(), or
+    # probabilities() before rates(), then the downstream likelihood
+    for site, lids, down in (("site_w2", ["wshape2", "mu_w2"], "like_w2"), ("site_w", ["wshape", "pinv", "mu"], "like_u"),
+                             ("site_i", ["pinv2"], "like_t"), ("site_i2", ["pinv3", "mu3"], None)):
+        for lid in lids:
+            v = value_for(g0, lid, rng)
+            u = {"op": "assign" if rng.random() < 0.6 else "inplace", "target": lid, "value": v.reshape(-1).tolist(), "shape": list(v.shape)}
+            ep = {"op": "eval", "node": site, "cell": 0, "getter": "probabilities"}
+            er = {"op": "eval", "node": site, "cell": 0}
+            tail = [{"op": "eval", "node": down, "cell": 0}] if down else []
+            handle([{"op": "evalall"}, dict(u), dict(ep)] + tail, "read-order")
+            handle([dict(er), dict(u), dict(ep), dict(ep), dict(er)], "read-order")
+    # a device move on a CatParameter (explicit, or implicit: a list x of a Distribution / TransformedParameter, the
+    # ratios+root_height of a reparameterised tree) or on a model OWNING one, NO read afterwards, then an update of a
+    # COMPONENT: its listeners must still hear it (oracle only)
+    for tgt, lid in (("cat_ab", "cat_a"), ("normal", "cat_b"), ("dupA_1", "dup_a"), ("dupT_1", "dup_b"), ("prior_dupT_2", "dup_a"),
+                     ("ttree", "ratios"), ("joint", "root_height"), ("joint_dup", "dup_c")):
+        for how in (("cpu", "to64", "tocpu") if ck.thorough() else (rng.choice(["cpu", "to64", "tocpu"]),)):
+            v = value_for(g0, lid, rng)
+            u = {"op": "assign", "target": lid, "value": v.reshape(-1).tolist(), "shape": list(v.shape)}
+            handle([{"op": "evalall"}, {"op": "device", "target": tgt, "how": how}, u], "device-move/cat-component", model=False)
     # FAILURE THEN RETRY: evaluate, put a parameter where evaluation RAISES (outside the support of a validated
     # torch distribution, a non positive-definite covariance), evaluate (raises), evaluate the same node and the
     # enclosing ones AGAIN, repair the parameter, evaluate: a call after a failed one must raise again or recompute,
